@@ -1,0 +1,205 @@
+//! Verification hook (compiled only with `--cfg anydb_verif`): traced read-write locks.
+//!
+//! `RwLock<T>` here is `lock_api::RwLock<TracedRaw, T>`: the same parking_lot lock, whose raw operations
+//! report *request / acquired / released* events (lock class, lock instance, mode, logical thread) to a global
+//! log while tracing is on, and which can park a thread at every request until a controller lets it continue
+//! (one permit per request), so that a test harness can replay a chosen interleaving.
+//!
+//! With tracing off each operation costs one relaxed atomic load on top of the parking_lot lock.
+use std::cell::Cell;
+use std::collections::HashMap;
+use std::sync::atomic::{AtomicBool, AtomicU64, Ordering};
+
+use parking_lot::lock_api::{self, RawRwLock as _};
+use parking_lot::{Condvar, Mutex};
+
+pub struct TracedRaw {
+    inner: parking_lot::RawRwLock,
+}
+
+pub type RwLock<T> = lock_api::RwLock<TracedRaw, T>;
+pub type RwLockReadGuard<'a, T> = lock_api::RwLockReadGuard<'a, TracedRaw, T>;
+pub type RwLockWriteGuard<'a, T> = lock_api::RwLockWriteGuard<'a, TracedRaw, T>;
+
+#[derive(Debug, Clone, Copy, PartialEq, Eq)]
+pub enum Phase {
+    Req,
+    Got,
+    Rel,
+}
+
+#[derive(Debug, Clone)]
+pub struct LockEvent {
+    pub seq: u64,
+    pub thread: u32,
+    pub phase: Phase,
+    /// class registered for this lock instance ("layout", "regions", "mmap", "file", "meta", "pages", ...) or "?"
+    pub class: String,
+    /// address of the lock (stable for the lock's life)
+    pub inst: usize,
+    pub write: bool,
+}
+
+static ON: AtomicBool = AtomicBool::new(false);
+static GATED: AtomicBool = AtomicBool::new(false);
+static SEQ: AtomicU64 = AtomicU64::new(0);
+static LOG: Mutex<Vec<LockEvent>> = Mutex::new(Vec::new());
+static CLASSES: Mutex<Option<HashMap<usize, String>>> = Mutex::new(None);
+/// permits per logical thread, and the condvar threads park on
+static GATE: (Mutex<Option<HashMap<u32, u64>>>, Condvar) = (Mutex::new(None), Condvar::new());
+
+thread_local! {
+    static TID: Cell<u32> = const { Cell::new(0) };
+}
+
+/// Gives the calling thread a logical id (0 = untraced: events are recorded, the gate is never applied).
+pub fn set_thread(id: u32) {
+    TID.with(|t| t.set(id));
+}
+
+/// Registers the class of a lock instance (by address). Call once the lock has its final address.
+pub fn register<T>(lock: &RwLock<T>, class: &str) {
+    if ON.load(Ordering::Relaxed) {
+        let addr = unsafe { lock.raw() } as *const TracedRaw as usize;
+        CLASSES.lock().get_or_insert_with(HashMap::new).insert(addr, class.to_string());
+    }
+}
+
+/// Same, with the class computed only while tracing is on and only the first time the instance is seen.
+pub fn register_with<T>(lock: &RwLock<T>, class: impl FnOnce() -> String) {
+    if ON.load(Ordering::Relaxed) {
+        let addr = unsafe { lock.raw() } as *const TracedRaw as usize;
+        let mut c = CLASSES.lock();
+        let m = c.get_or_insert_with(HashMap::new);
+        if !m.contains_key(&addr) {
+            m.insert(addr, class());
+        }
+    }
+}
+
+#[inline]
+pub fn enabled() -> bool {
+    ON.load(Ordering::Relaxed)
+}
+
+pub fn start(gated: bool) {
+    LOG.lock().clear();
+    *CLASSES.lock() = Some(HashMap::new());
+    *GATE.0.lock() = Some(HashMap::new());
+    SEQ.store(0, Ordering::SeqCst);
+    GATED.store(gated, Ordering::SeqCst);
+    ON.store(true, Ordering::SeqCst);
+}
+
+pub fn stop() -> Vec<LockEvent> {
+    ON.store(false, Ordering::SeqCst);
+    GATED.store(false, Ordering::SeqCst);
+    // release anybody still parked
+    *GATE.0.lock() = None;
+    GATE.1.notify_all();
+    std::mem::take(&mut *LOG.lock())
+}
+
+/// Events recorded so far (a copy).
+pub fn snapshot() -> Vec<LockEvent> {
+    LOG.lock().clone()
+}
+
+pub fn log_len() -> usize {
+    LOG.lock().len()
+}
+
+/// Lets logical thread `tid` pass its next `n` lock requests.
+pub fn grant(tid: u32, n: u64) {
+    if let Some(m) = GATE.0.lock().as_mut() {
+        *m.entry(tid).or_insert(0) += n;
+    }
+    GATE.1.notify_all();
+}
+
+fn event(raw: &TracedRaw, phase: Phase, write: bool) {
+    let inst = raw as *const TracedRaw as usize;
+    let class = CLASSES.lock().as_ref().and_then(|m| m.get(&inst).cloned()).unwrap_or_else(|| "?".to_string());
+    let thread = TID.with(|t| t.get());
+    let mut log = LOG.lock();
+    let seq = SEQ.fetch_add(1, Ordering::SeqCst);
+    log.push(LockEvent { seq, thread, phase, class, inst, write });
+}
+
+fn request(raw: &TracedRaw, write: bool) {
+    if !ON.load(Ordering::Relaxed) {
+        return;
+    }
+    event(raw, Phase::Req, write);
+    if GATED.load(Ordering::Relaxed) {
+        let tid = TID.with(|t| t.get());
+        if tid != 0 {
+            let mut g = GATE.0.lock();
+            loop {
+                match g.as_mut() {
+                    None => break,
+                    Some(m) => {
+                        let p = m.entry(tid).or_insert(0);
+                        if *p > 0 {
+                            *p -= 1;
+                            break;
+                        }
+                    }
+                }
+                GATE.1.wait(&mut g);
+            }
+        }
+    }
+}
+
+#[inline]
+fn after(raw: &TracedRaw, phase: Phase, write: bool) {
+    if ON.load(Ordering::Relaxed) {
+        event(raw, phase, write);
+    }
+}
+
+unsafe impl lock_api::RawRwLock for TracedRaw {
+    #[allow(clippy::declare_interior_mutable_const)]
+    const INIT: Self = TracedRaw { inner: parking_lot::RawRwLock::INIT };
+    type GuardMarker = <parking_lot::RawRwLock as lock_api::RawRwLock>::GuardMarker;
+
+    fn lock_shared(&self) {
+        request(self, false);
+        self.inner.lock_shared();
+        after(self, Phase::Got, false);
+    }
+    fn try_lock_shared(&self) -> bool {
+        let ok = self.inner.try_lock_shared();
+        if ok {
+            after(self, Phase::Got, false);
+        }
+        ok
+    }
+    unsafe fn unlock_shared(&self) {
+        unsafe { self.inner.unlock_shared() };
+        after(self, Phase::Rel, false);
+    }
+    fn lock_exclusive(&self) {
+        request(self, true);
+        self.inner.lock_exclusive();
+        after(self, Phase::Got, true);
+    }
+    fn try_lock_exclusive(&self) -> bool {
+        let ok = self.inner.try_lock_exclusive();
+        if ok {
+            after(self, Phase::Got, true);
+        }
+        ok
+    }
+    unsafe fn unlock_exclusive(&self) {
+        unsafe { self.inner.unlock_exclusive() };
+        after(self, Phase::Rel, true);
+    }
+    fn is_locked(&self) -> bool {
+        self.inner.is_locked()
+    }
+    fn is_locked_exclusive(&self) -> bool {
+        self.inner.is_locked_exclusive()
+    }
+}
